@@ -57,6 +57,18 @@ def c_formats(ctx, args):
         r = I['parse'](toks)
         if r != [g, p]:
             return {'kind': 'oracle', 'where': be + ':pauli(list)', 'observed': r, 'expected': [g, p], 'tokens': toks}
+    # the qubit number may be SAID as well (it is needed for dictionaries, and harmless -- if right -- for every other description)
+    lib = __import__('pyclifford' if be == 'np' else 'torchclifford')
+    M_ = impl(be)
+    for toks, p in forms[:8]:
+        seq = [chr(t - 1000) if t >= 1000 else int(t) for t in toks]
+        for descr in (list(seq), tuple(seq)) + ((__import__('numpy').array(seq),) if all(isinstance(x, int) for x in seq) else ()):
+            try:
+                r2 = M_.oP(lib.pauli(descr, N=n))
+            except Exception as e:
+                return {'kind': 'oracle', 'where': '%s:pauli(sequence, N=%d) raised %s' % (be, n, type(e).__name__), 'observed': str(e)[:100], 'expected': [g, p], 'tokens': toks, 'tags': ['explicit_N']}
+            if r2 != [g, p]:
+                return {'kind': 'oracle', 'where': '%s:pauli(sequence, N=%d) differs from pauli(sequence)' % (be, n), 'observed': r2, 'expected': [g, p], 'tokens': toks, 'tags': ['explicit_N']}
     items = [[i, c] for i, c in enumerate(codes(g)) if c != 0]
     r = I['parse_dict'](n, items)
     if r != [g, 0]:
